@@ -12,6 +12,8 @@ package c09
 
 import (
 	"bytes"
+	"crypto/aes"
+	"crypto/cipher"
 	"crypto/rand"
 	"encoding/base64"
 	"encoding/hex"
@@ -52,6 +54,7 @@ func init() {
 			{Name: "malformed-encoded-exhaustive", Run: extraMalformedEncoded},
 			{Name: "iotest-readers-both-sides", Run: extraIotestReaders},
 			{Name: "large-inputs", Run: extraLargeInputs},
+			{Name: "secret-length-sweep", Run: extraSecretLengthSweep},
 			{Name: "openssl-binary", Run: extraOpenSSL, Tiers: []string{"thorough"}},
 		},
 		Assumptions: []string{
@@ -739,6 +742,23 @@ func step(t []string, hb *histBufs) string {
 			return errClass(err)
 		}
 		return "ok " + w.show()
+	case "ctr":
+		// ctr key iv n: NOT a call into /repo — the first n keystream bytes of crypto/cipher's CTR
+		// mode, so that the Lean model's counter (all 16 bytes carry) is compared with the standard
+		// library's on IVs about to wrap their last 4 / 8 / 12 / 16 bytes
+		if len(t) != 4 {
+			return "bad-op"
+		}
+		key, ok1 := unhx(t[1])
+		iv, ok2 := unhx(t[2])
+		n, err := strconv.Atoi(t[3])
+		if !ok1 || !ok2 || err != nil || n < 0 || n > 1<<16 || len(iv) != 16 || (len(key) != 16 && len(key) != 24 && len(key) != 32) {
+			return "bad-op"
+		}
+		blk, _ := aes.NewCipher(key)
+		ks := make([]byte, n)
+		cipher.NewCTR(blk, iv).XORKeyStream(ks, ks)
+		return "ok " + hx(ks)
 	case "rt-cbc":
 		// real randomness: Decrypt(Encrypt(p, s), s)
 		if !need(4, 2) || !tyOK(t[1]) {
